@@ -55,7 +55,7 @@ Print Assumptions C05_remove_from_missing_only_drops.
 
 (* ---------- the unused side of the shared model (for C02): unused_sound on stage 1 ----------
    An import reported unused by scan_for_import_issues is the binding of no read.  Hypotheses beyond the
-   stage-1 shape: every import binds a one-component key (u1_block: no plain `import a.b` - F16), and no
+   stage-1 shape: every import binds a one-component key (u1_block: no plain `import a.b`), and no
    two import items have the same (line, import) pair (the pair is how the report names an import). *)
 Theorem C05_unused_sound_stage1 : forall bi ns p, u1_block p = true -> star_free bi ns = true ->
   NoDup (imp_events (bsrcs_block false p)) ->
@@ -66,13 +66,11 @@ Print Assumptions C05_unused_sound_stage1.
 
 Definition unused_sound_at (p : program) : Prop :=
   forall l i, In (l, i) (snd (finder [] [[]] true p)) -> forall ln n, ~ In (ln, n, Bound (BImp l i)) (pysem [] [[]] p).
-(* F16:  import os.path ; os.getcwd()   - the read goes through the package name *)
-Theorem C05_unused_sound_refuted_F16 :
-  ~ unused_sound_at [SImport 1 [([50; 51], None)]; SExpr 2 (EOp [ELoad 50 [52]])]%N.
-Proof.
-  unfold unused_sound_at. intro H. apply (H 1%nat ([50; 51], [50; 51])%N) with (ln := 2%nat) (n := 50%N); vm_compute; auto.
-Qed.
-Print Assumptions C05_unused_sound_refuted_F16.
+(* F16 (repaired, fixes/F16-package-prefix-use.diff):  import os.path ; os.getcwd()  - the read through the
+   package name now marks the import used *)
+Example C05_F16_repaired :
+  snd (finder [] [[]] true [SImport 1 [([50; 51], None)]; SExpr 2 (EOp [ELoad 50 [52]])]%N) = [].
+Proof. vm_compute. reflexivity. Qed.
 (* import a, a ; a   - two items with the same (line, import): the first checker is reported *)
 Theorem C05_unused_sound_refuted_duplicate_item :
   ~ unused_sound_at [SImport 1 [([50], None); ([50], None)]; SExpr 2 (ELoad 50 [])]%N.
